@@ -23,9 +23,11 @@ using namespace nttor;
 typedef Goldilocks::Element E;
 
 struct Call { int mode; u64 n, next, ncols, nphase, nblock; };
+static const int M_CR = 3; // the public helper computeR(N): no output, but it rewrites the coset tables an extendPol call relies on
+static const char *mn(int mode) { return mode == M_CR ? "computeR" : mname[mode]; }
 static std::string callstr(const Call &c)
 {
-    return fmt("%s(n=%llu,next=%llu,ncols=%llu,nphase=%llu,nblock=%llu)", mname[c.mode], (unsigned long long)c.n, (unsigned long long)c.next, (unsigned long long)c.ncols, (unsigned long long)c.nphase, (unsigned long long)c.nblock);
+    return fmt("%s(n=%llu,next=%llu,ncols=%llu,nphase=%llu,nblock=%llu)", mn(c.mode), (unsigned long long)c.n, (unsigned long long)c.next, (unsigned long long)c.ncols, (unsigned long long)c.nphase, (unsigned long long)c.nblock);
 }
 static std::vector<Call> alphabet_calls(u64 D, bool thorough)
 {
@@ -84,6 +86,7 @@ static std::vector<u64> input_for(const Call &c)
 // performs the call on object o; returns output matrix (canonical values)
 static std::vector<u64> do_call(NTT_Goldilocks &o, const Call &c)
 {
+    if (c.mode == M_CR) { o.computeR(c.n); return std::vector<u64>(); }
     u64 nout = c.mode == M_EXT ? c.next : c.n;
     std::vector<u64> in = input_for(c);
     GuardArena<E> src(c.n * c.ncols, true), dst(nout * c.ncols, true);
@@ -184,6 +187,7 @@ static std::vector<Call> small_calls()
     return {
         {M_EXT, 1, 2, 1, 3, 1}, {M_EXT, 2, 2, 1, 3, 1}, {M_EXT, 2, 4, 2, 2, 1}, {M_EXT, 4, 4, 1, 3, 1}, {M_EXT, 4, 8, 1, 2, 2},
         {M_EXT, 8, 8, 1, 3, 1}, {M_EXT, 8, 16, 2, 3, 1}, {M_NTT, 8, 0, 1, 3, 1}, {M_INTT, 4, 0, 2, 2, 1},
+        {M_CR, 2, 0, 0, 0, 0}, {M_CR, 8, 0, 0, 0, 0},
     };
 }
 // calls for objects constructed with the third argument (extension > 1: the transform treats the rows from size/extension on as
@@ -217,7 +221,7 @@ static void deep_history(const Cfg &cfg, const std::vector<Call> &A, const std::
     {
         size_t i = 0;
         while (i < got.size() && got[i] == fresh[i]) i++;
-        rep().viol(fmt("C19.differs-from-fresh.deep.%s", mname[A[hist.back()].mode]), cs_, fmt("last call %s after %zu earlier calls: element %zu = %s but a fresh object gives %s", callstr(A[hist.back()]).c_str(), hist.size() - 1, i, hex(got[i]).c_str(), hex(fresh[i]).c_str()));
+        rep().viol(fmt("C19.differs-from-fresh.deep.%s", mn(A[hist.back()].mode)), cs_, fmt("last call %s after %zu earlier calls: element %zu = %s but a fresh object gives %s", callstr(A[hist.back()]).c_str(), hist.size() - 1, i, hex(got[i]).c_str(), hex(fresh[i]).c_str()));
     }
 }
 
@@ -275,7 +279,7 @@ int main(int argc, char **argv)
             for (u64 x : culist(m, "hist")) hist.push_back((int)x);
             ChildResult r = run_child([&](FILE *f) { dup2(fileno(f), 1); rep().reset(); deep_history(cfg, A, hist); rep().flush(); fflush(stdout); }, 300);
             if (r.kind == 0) fwrite(r.out.data(), 1, r.out.size(), stdout);
-            else rep().viol(fmt("C19.%s.deep.%s", crash_sig(r).c_str(), mname[A[hist.back()].mode]), args.one, err_tail(r));
+            else rep().viol(fmt("C19.%s.deep.%s", crash_sig(r).c_str(), mn(A[hist.back()].mode)), args.one, err_tail(r));
             rep().flush();
             return 0;
         }
@@ -400,7 +404,7 @@ int main(int argc, char **argv)
         }
         isolated_for((long)H.size(), args.jobs, 8, [&](long i) { deep_history(cfg, A, H[i]); },
                      [&](long i, const ChildResult &r) {
-                         rep().viol(fmt("C19.%s.deep.%s", crash_sig(r).c_str(), mname[A[H[i].back()].mode]), fmt("deep=1 D=%llu nthreads=%u hist=%s", (unsigned long long)cfg.D, cfg.nthreads, histstr(A, H[i]).c_str()), err_tail(r));
+                         rep().viol(fmt("C19.%s.deep.%s", crash_sig(r).c_str(), mn(A[H[i].back()].mode)), fmt("deep=1 D=%llu nthreads=%u hist=%s", (unsigned long long)cfg.D, cfg.nthreads, histstr(A, H[i]).c_str()), err_tail(r));
                      }, 600);
         total_states += (long long)H.size();
         nontriv += (long long)H.size() - (long long)A.size();
@@ -418,7 +422,7 @@ int main(int argc, char **argv)
             }
             isolated_for((long)SH.size(), args.jobs, 64, [&](long i) { deep_history(scfg, SA, SH[i]); },
                          [&](long i, const ChildResult &r) {
-                             rep().viol(fmt("C19.%s.deep.%s", crash_sig(r).c_str(), mname[SA[SH[i].back()].mode]), fmt("deep=2 D=%llu nthreads=%u hist=%s", (unsigned long long)scfg.D, scfg.nthreads, histstr(SA, SH[i]).c_str()), err_tail(r));
+                             rep().viol(fmt("C19.%s.deep.%s", crash_sig(r).c_str(), mn(SA[SH[i].back()].mode)), fmt("deep=2 D=%llu nthreads=%u hist=%s", (unsigned long long)scfg.D, scfg.nthreads, histstr(SA, SH[i]).c_str()), err_tail(r));
                          }, 300);
             total_states += (long long)SH.size();
             nontriv += (long long)SH.size() - (long long)SA.size();
@@ -441,7 +445,7 @@ int main(int argc, char **argv)
                 ecfg.ext = ext;
                 isolated_for((long)EH.size(), args.jobs, 64, [&](long i) { deep_history(ecfg, EA, EH[i]); },
                              [&](long i, const ChildResult &r) {
-                                 rep().viol(fmt("C19.%s.deep.%s", crash_sig(r).c_str(), mname[EA[EH[i].back()].mode]), fmt("deep=3 D=16 nthreads=3 hist=%s ext=%d", histstr(EA, EH[i]).c_str(), ext), err_tail(r));
+                                 rep().viol(fmt("C19.%s.deep.%s", crash_sig(r).c_str(), mn(EA[EH[i].back()].mode)), fmt("deep=3 D=16 nthreads=3 hist=%s ext=%d", histstr(EA, EH[i]).c_str(), ext), err_tail(r));
                              }, 300);
                 total_states += (long long)EH.size();
                 nontriv += (long long)EH.size() - (long long)EA.size();
